@@ -125,7 +125,7 @@ package skiplist
 //@ func (*skiplist.SkipList).Set
 //@ props C17 C01
 //@ requires SL(s) && wf(entry.Key)
-//@ assigns everything
+//@ assigns SLMem, SLW, heap:F|skiplist.SkipList.*, heap:F|skiplist.Element.*, heap:A|*skiplist.Element
 //@ ensures SL(s) && s.maxLevel == old(s.maxLevel) && s.head == old(s.head)
 //@ ensures SLMem[ref(s)][SLW] && SLW != ref(s.head) && cmp(cast(P_skiplist_Element, SLW).Entry.Key, entry.Key) == 0 && cast(P_skiplist_Element, SLW).Entry.Value == entry.Value && cast(P_skiplist_Element, SLW).Entry.Tombstone == entry.Tombstone
 //@ ensures old(SLMem)[ref(s)][SLW] ==> (cast(P_skiplist_Element, SLW).Entry.Key == old(cast(P_skiplist_Element, now(SLW)).Entry.Key) && cast(P_skiplist_Element, SLW).Entry.Version == old(cast(P_skiplist_Element, now(SLW)).Entry.Version))
